@@ -301,12 +301,12 @@ pub fn check(s: &Scenario) -> CheckResult {
 }
 
 fn wround() -> BoxedStrategy<WRound> {
-    let triple = || [gen::moderate(), gen::moderate(), gen::moderate()];
+    let triple = || [gen::mostly_moderate_any_finite(), gen::mostly_moderate_any_finite(), gen::mostly_moderate_any_finite()];
     (
         proptest::option::weighted(0.4, triple()),
         proptest::option::weighted(0.3, triple()),
-        proptest::option::weighted(0.3, (0u8..3, gen::moderate())),
-        proptest::option::weighted(0.3, (0u8..3, gen::moderate())),
+        proptest::option::weighted(0.3, (0u8..3, gen::mostly_moderate_any_finite())),
+        proptest::option::weighted(0.3, (0u8..3, gen::mostly_moderate_any_finite())),
         prop_oneof![1 => Just(0i64), 9 => gen::log_ns(1, 3_600_000_000_000)],
         prop_oneof![6 => Just(0u8), 2 => Just(1u8), 1 => Just(2u8), 1 => Just(3u8)],
         triple(),
@@ -326,7 +326,7 @@ impl Property for C20 {
         (
             prop_oneof![Just(Which::Actuator), Just(Which::Encoder), Just(Which::Pid)],
             proptest::bool::weighted(0.7),
-            [gen::moderate(), gen::moderate(), gen::moderate()],
+            [gen::wide(), gen::wide(), gen::wide()],
             prop_oneof![Just(0i64), -1_000_000_000_000i64..1_000_000_000_000],
             [gen::moderate(), gen::moderate(), gen::moderate()],
             (0u8..3, gen::moderate()),
